@@ -87,7 +87,11 @@ ROLE_MODULES = ("_storage",)  # functions there carry roles (push/pop/get/set, f
 
 def _inlinable(model, h: FuncInfo, caller: Optional[FuncInfo] = None) -> bool:
     if h.module.short in ROLE_MODULES:
-        return False
+        # the storage module's API functions carry roles that are recognised at their call sites in other modules:
+        # they stay.  A new *private* module-level helper used by them inside the module (`_top_frame()`) is ordinary
+        # code of theirs.
+        if not (caller is not None and caller.module is h.module and h.cls is None and h.parent is None and h.name.startswith("_") and not h.name.startswith("__")):
+            return False
     if isinstance(h.parent, FuncInfo):
         # a local function defined more than once under one name (`if c: def f.. else: def f..`) or re-bound:
         # which body a call runs depends on the path
@@ -2367,3 +2371,474 @@ def norm_dotted(e) -> str:
     if isinstance(e, ast.Name):
         parts.append(e.id)
     return ".".join(reversed(parts))
+
+
+# --------------------------------------------------------------------------- constant folding after inlining
+def fold_after_inlining(model, changed_qualnames) -> bool:
+    """A helper parameterised by a constant (`_raise_error(_STAGE_RETURN, ..)`: `if stage == _STAGE_RETURN`) leaves
+    comparisons of two constants behind once it is inlined and its constants are substituted.  In the functions that
+    received inlined code: `c1 == c2` / `c1 is c2` / `c1 in (..)` of literals are evaluated, a local bound exactly once
+    to a literal bool / None / str is substituted into `if` tests, and `if True:` / `if False:` keep only the live branch."""
+    import operator
+
+    OPS = {ast.Eq: operator.eq, ast.NotEq: operator.ne, ast.Is: operator.is_, ast.IsNot: operator.is_not,
+           ast.In: lambda a, b: a in b, ast.NotIn: lambda a, b: a not in b}
+    any_change = False
+
+    def lit(e):
+        if isinstance(e, ast.Constant):
+            return True, e.value
+        if isinstance(e, (ast.Tuple, ast.List, ast.Set)) and all(isinstance(x, ast.Constant) for x in e.elts):
+            return True, tuple(x.value for x in e.elts)
+        return False, None
+
+    class Fold(ast.NodeTransformer):
+        def __init__(self, consts):
+            self.consts = consts
+            self.changed = False
+
+        def visit_Compare(self, n):
+            self.generic_visit(n)
+            if len(n.ops) == 1 and type(n.ops[0]) in OPS:
+                a_ok, a = lit(n.left)
+                b_ok, b = lit(n.comparators[0])
+                if a_ok and b_ok and not isinstance(a, float) and not isinstance(b, float):
+                    if isinstance(n.ops[0], (ast.Is, ast.IsNot)) and not (a is None or b is None or isinstance(a, bool) or isinstance(b, bool)):
+                        return n  # identity of other literals is an implementation detail
+                    try:
+                        v = OPS[type(n.ops[0])](a, b)
+                    except Exception:
+                        return n
+                    self.changed = True
+                    return ast.copy_location(ast.Constant(value=bool(v)), n)
+            return n
+
+        def visit_UnaryOp(self, n):
+            self.generic_visit(n)
+            if isinstance(n.op, ast.Not) and isinstance(n.operand, ast.Constant):
+                self.changed = True
+                return ast.copy_location(ast.Constant(value=not n.operand.value), n)
+            return n
+
+        def visit_BoolOp(self, n):
+            self.generic_visit(n)
+            vals = []
+            for v in n.values:
+                if isinstance(v, ast.Constant):
+                    if isinstance(n.op, ast.And) and not v.value or isinstance(n.op, ast.Or) and v.value:
+                        vals.append(v)
+                        break  # short-circuits here
+                    if v is not n.values[-1]:
+                        continue  # neutral element (not last: the last operand is the value of the expression)
+                vals.append(v)
+            if len(vals) != len(n.values):
+                self.changed = True
+                if len(vals) == 1:
+                    return vals[0]
+                n.values = vals
+            return n
+
+        def _test(self, t):
+            if isinstance(t, ast.Name) and t.id in self.consts:
+                self.changed = True
+                return ast.copy_location(ast.Constant(value=self.consts[t.id]), t)
+            if isinstance(t, ast.UnaryOp) and isinstance(t.op, ast.Not):
+                t.operand = self._test(t.operand)
+                if isinstance(t.operand, ast.Constant):
+                    return ast.copy_location(ast.Constant(value=not t.operand.value), t)
+            return t
+
+        def visit_If(self, n):
+            n.test = self._test(n.test)
+            self.generic_visit(n)
+            if isinstance(n.test, ast.Constant):
+                self.changed = True
+                live = n.body if n.test.value else n.orelse
+                return live or [ast.copy_location(ast.Pass(), n)]
+            return n
+
+        def visit_FunctionDef(self, n):
+            return n
+
+        visit_AsyncFunctionDef = visit_Lambda = visit_ClassDef = visit_FunctionDef
+
+    for q in sorted(set(changed_qualnames)):
+        f = model.functions.get(q)
+        if f is None or not isinstance(f.node, (ast.FunctionDef, ast.AsyncFunctionDef)):
+            continue
+        for _round in range(3):
+            stores = {}
+            for x in _walk_own(f.node):
+                if isinstance(x, ast.Name) and isinstance(x.ctx, (ast.Store, ast.Del)):
+                    stores[x.id] = stores.get(x.id, 0) + 1
+            consts = {}
+            pre = Fold({})
+            f.node.body = [y for st in f.node.body for y in (lambda r: r if isinstance(r, list) else [r])(pre.visit(st))]
+            for x in _walk_own(f.node):
+                if isinstance(x, ast.Assign) and len(x.targets) == 1 and isinstance(x.targets[0], ast.Name) and stores.get(x.targets[0].id) == 1 \
+                        and isinstance(x.value, ast.Constant) and (x.value.value is None or isinstance(x.value.value, (bool, str))) and x.targets[0].id not in f.params:
+                    consts[x.targets[0].id] = x.value.value
+            tr = Fold(consts)
+            f.node.body = [y for st in f.node.body for y in (lambda r: r if isinstance(r, list) else [r])(tr.visit(st))]
+            if not (tr.changed or pre.changed):
+                break
+            any_change = True
+        ast.fix_missing_locations(f.node)
+    return any_change
+
+
+# --------------------------------------------------------------------------- local aliases
+def _alias_value_ok(e) -> bool:
+    """plain name / attribute chain, `len(<chain>)`, or + / - of such things and integer literals"""
+    if isinstance(e, ast.Constant):
+        return isinstance(e.value, int) and not isinstance(e.value, bool)
+    if _simple(e):
+        return True
+    if isinstance(e, ast.Call) and isinstance(e.func, ast.Name) and e.func.id == "len" and len(e.args) == 1 and not e.keywords and _simple(e.args[0]):
+        return True
+    if isinstance(e, ast.BinOp) and isinstance(e.op, (ast.Add, ast.Sub)):
+        return _alias_value_ok(e.left) and _alias_value_ok(e.right)
+    if isinstance(e, ast.Compare) and len(e.ops) == 1 and isinstance(e.ops[0], (ast.Is, ast.IsNot, ast.Eq, ast.NotEq)) and _simple(e.left) and _simple(e.comparators[0]):
+        return True  # `has_return = sig.return_annotation is not inspect.Signature.empty`
+    return False
+
+
+def propagate_local_aliases(model, changed: set) -> list:
+    """`cls_dims = cls.dims` ... `cls_dims[:i]` -> `cls.dims[:i]`; `n = len(cls.dims); m = n - 1` ... `len(obj.shape) < m` ->
+    `len(obj.shape) < len(cls.dims) - 1`: a local bound exactly once to a plain name / attribute chain / `len()` of one /
+    a sum or difference of such things, whose root names are never re-bound in the function and which is only read in the
+    statements that follow its binding in the same block, is replaced by that expression (the rules are anchored in the
+    pinned spellings `cls.dims`, `obj.shape`, `bound.arguments`).  Only in functions whose source differs from the pinned
+    tree (`changed`: qualified names), so that the pinned code is analysed as written.  For a static reading an attribute
+    chain evaluated once or at every use is the same expression."""
+    done = []
+    for q in sorted(changed):
+        f = model.functions.get(q)
+        if f is None or f.module.short.startswith("_typeguard") or not isinstance(f.node, (ast.FunctionDef, ast.AsyncFunctionDef)):
+            continue
+        params = set(f.params)
+        for _round in range(4):
+            stores = {}
+            for x in ast.walk(f.node):  # nested functions included: a closure re-binding the name spoils it
+                if isinstance(x, ast.Name) and isinstance(x.ctx, (ast.Store, ast.Del)):
+                    stores[x.id] = stores.get(x.id, 0) + 1
+                if isinstance(x, (ast.Global, ast.Nonlocal)):
+                    for nm in x.names:
+                        stores[nm] = stores.get(nm, 0) + 2
+            written = {y.attr for y in ast.walk(f.node) if isinstance(y, ast.Attribute) and isinstance(y.ctx, (ast.Store, ast.Del))}
+            loads = {}
+            for x in ast.walk(f.node):
+                if isinstance(x, ast.Name) and isinstance(x.ctx, ast.Load):
+                    loads[x.id] = loads.get(x.id, 0) + 1
+            hit = [None]
+
+            def scan(stmts):
+                for k, st in enumerate(stmts):
+                    if hit[0] is not None:
+                        return
+                    if isinstance(st, ast.Assign) and len(st.targets) == 1 and isinstance(st.targets[0], ast.Name) and stores.get(st.targets[0].id) == 1 \
+                            and st.targets[0].id not in params and _alias_value_ok(st.value) and not isinstance(st.value, ast.Constant):
+                        nm = st.targets[0].id
+                        roots = {y.id for y in ast.walk(st.value) if isinstance(y, ast.Name)} - {"len"}
+                        chain_attrs = {y.attr for y in ast.walk(st.value) if isinstance(y, ast.Attribute)}
+                        after = sum(1 for later in stmts[k + 1:] for y in ast.walk(later) if isinstance(y, ast.Name) and y.id == nm and isinstance(y.ctx, ast.Load))
+                        in_closure = any(isinstance(fn_, (ast.FunctionDef, ast.AsyncFunctionDef, ast.Lambda)) and fn_ is not f.node
+                                         and any(isinstance(y, ast.Name) and y.id == nm for y in ast.walk(fn_)) for fn_ in ast.walk(f.node))
+                        # read from a closure: the roots must already have their final value when the alias is bound
+                        # (every store to them comes earlier in the text and none is inside a nested function)
+                        store_lines = {}
+                        for y in ast.walk(f.node):
+                            if isinstance(y, ast.Name) and isinstance(y.ctx, (ast.Store, ast.Del)) and y.id in roots:
+                                store_lines.setdefault(y.id, []).append(getattr(y, "lineno", 10 ** 9))
+                        settled = all(max(v) < st.lineno for v in store_lines.values()) and not any(
+                            isinstance(fn_, (ast.FunctionDef, ast.AsyncFunctionDef, ast.Lambda)) and fn_ is not f.node and any(
+                                isinstance(y, ast.Name) and isinstance(y.ctx, (ast.Store, ast.Del)) and y.id in roots for y in ast.walk(fn_)) for fn_ in ast.walk(f.node))
+                        roots_ok = all(stores.get(r_, 0) == 0 for r_ in roots) or settled
+                        if isinstance(st.value, ast.Name):
+                            roots_ok = False  # a second name for another local / parameter is how aliasing defects look: kept as written
+                        if in_closure:
+                            # the closure runs later: state reachable from a module-level object of the package (`config.x`) may
+                            # have changed by then -- only chains rooted in the enclosing function's own locals / parameters and
+                            # in external modules are settled values
+                            for r_ in roots:
+                                b_ = model.resolve_name(f, r_)
+                                if b_.kind not in ("local", "param", "ext", "module", "builtin", "freevar"):
+                                    roots_ok = False
+                        if roots_ok and nm not in roots and not (chain_attrs & written) and after == loads.get(nm, 0) and after > 0 and (not in_closure or settled):
+                            hit[0] = (stmts, k, nm, st.value)
+                            return
+                    if isinstance(st, (ast.FunctionDef, ast.AsyncFunctionDef, ast.ClassDef)):
+                        continue
+                    for fld in ("body", "orelse", "finalbody"):
+                        sub = getattr(st, fld, None)
+                        if isinstance(sub, list) and sub and isinstance(sub[0], ast.stmt):
+                            scan(sub)
+                    for hd in getattr(st, "handlers", []) or []:
+                        scan(hd.body)
+
+            scan(f.node.body)
+            if hit[0] is None:
+                break
+            stmts, k, nm, val = hit[0]
+
+            class Tr(ast.NodeTransformer):
+                def visit_Name(self, n):
+                    if isinstance(n.ctx, ast.Load) and n.id == nm:
+                        return ast.copy_location(copy.deepcopy(val), n)
+                    return n
+
+            for later in stmts[k + 1:]:
+                Tr().visit(later)
+            del stmts[k]
+            if not stmts:
+                stmts.append(ast.Pass())
+            done.append(f"{q}:{nm}")
+        ast.fix_missing_locations(f.node)
+    return done
+
+
+# --------------------------------------------------------------------------- parameter objects
+def _new_records(model, module_names: dict) -> dict:
+    """(module short, class name) -> [field names]: new NamedTuple / dataclass / plain `__init__`-stores-its-parameters classes
+    without methods of their own (a bundle of values)."""
+    out = {}
+    for mod in model.modules.values():
+        if mod.short.startswith("_typeguard"):
+            continue
+        known = module_names.get(mod.short, set())
+        for st in mod.tree.body:
+            if not isinstance(st, ast.ClassDef) or st.name in known or st.keywords:
+                continue
+            body = _strip_doc(list(st.body))
+            fields = None
+            is_nt = len(st.bases) == 1 and norm_base(st.bases[0]) == "NamedTuple" and not st.decorator_list
+            is_dc = not st.bases and len(st.decorator_list) == 1 and norm_dotted(st.decorator_list[0].func if isinstance(st.decorator_list[0], ast.Call) else st.decorator_list[0]).split(".")[-1] == "dataclass"
+            if is_nt or is_dc:
+                if all(isinstance(b, ast.AnnAssign) and isinstance(b.target, ast.Name) and b.value is None for b in body) and body:
+                    fields = [b.target.id for b in body]
+            elif not st.bases and not st.decorator_list:
+                inits = [b for b in body if isinstance(b, ast.FunctionDef)]
+                rest = [b for b in body if not isinstance(b, ast.FunctionDef) and not (isinstance(b, ast.Assign) and isinstance(b.targets[0], ast.Name) and b.targets[0].id == "__slots__")]
+                if len(inits) == 1 and inits[0].name == "__init__" and not rest:
+                    ini = inits[0]
+                    ps = [a.arg for a in ini.args.args]
+                    ok = not (ini.args.vararg or ini.args.kwarg or ini.args.kwonlyargs or ini.args.defaults) and len(ps) >= 2
+                    flds = []
+                    for b in _strip_doc(list(ini.body)):
+                        if ok and isinstance(b, ast.Assign) and len(b.targets) == 1 and isinstance(b.targets[0], ast.Attribute) and isinstance(b.targets[0].value, ast.Name) \
+                                and b.targets[0].value.id == ps[0] and isinstance(b.value, ast.Name) and b.value.id in ps[1:] and b.targets[0].attr.lstrip("_") == b.value.id.lstrip("_"):
+                            flds.append((b.value.id, b.targets[0].attr))
+                        else:
+                            ok = False
+                    if ok and [p_ for p_, _ in flds] == ps[1:]:
+                        fields = [a_ for _, a_ in flds]
+            if fields:
+                out[(mod.short, st.name)] = fields
+    return out
+
+
+def dissolve_parameter_objects(model, module_names: dict) -> list:
+    """`impl(_CallInfo(args, kwargs, bound.arguments, memos))` with `def impl(call): ... call.args ...` ->
+    `impl(args, kwargs, bound.arguments, memos)` with `def impl(args, kwargs, arguments, memos)`: a new record class whose
+    instances are only ever built at call sites (or bound to a local first), handed to package functions as one argument, and
+    read field by field there, is replaced by its fields.  All-or-nothing per record class: any other use of an instance
+    (stored, returned, compared, a field assigned) leaves everything as it is."""
+    recs = _new_records(model, module_names)
+    if not recs:
+        return []
+    done = []
+    for key, fields in recs.items():
+        cname = key[1]
+
+        def is_ctor(scope, e):
+            if isinstance(e, ast.Call) and isinstance(e.func, ast.Name) and e.func.id == cname and not any(isinstance(a, ast.Starred) for a in e.args):
+                b = model.resolve_name(scope, cname)
+                return b.kind == "class" and (b.target.module.short, b.target.name) == key
+            return False
+
+        def ctor_fields(e):
+            vals = {}
+            for f_, a in zip(fields, e.args):
+                vals[f_] = a
+            for k in e.keywords:
+                if k.arg is None:
+                    return None
+                vals[k.arg if k.arg in fields else "_" + k.arg] = k.value
+            return [vals[f_] for f_ in fields] if set(vals) == set(fields) else None
+
+        # plan: which (function, parameter) pairs receive a record
+        recv = {}  # qualname -> param name
+        plan_ok = True
+        work = []
+        for f in model.functions.values():
+            if f.module.short.startswith("_typeguard"):
+                continue
+            for c in model.calls_in(f):
+                for i, a in enumerate(list(c.args) + [k.value for k in c.keywords]):
+                    if is_ctor(f, a):
+                        work.append((f, c, a))
+        if not work:
+            continue
+        # every mention of the class name must be a constructor call in argument position (or an annotation)
+        ann_ok = True
+        for mod in model.modules.values():
+            if mod.short.startswith("_typeguard"):
+                continue
+            parents = {}
+            for p in ast.walk(mod.tree):
+                for c in ast.iter_child_nodes(p):
+                    parents[id(c)] = p
+            for x in ast.walk(mod.tree):
+                if isinstance(x, ast.Name) and x.id == cname and isinstance(x.ctx, ast.Load):
+                    p = parents.get(id(x))
+                    if isinstance(p, ast.Call) and p.func is x:
+                        pp = parents.get(id(p))
+                        if isinstance(pp, ast.Call) and (p in pp.args or any(k.value is p for k in pp.keywords)):
+                            continue
+                        ann_ok = False
+                    elif isinstance(p, ast.arg) or isinstance(p, (ast.AnnAssign,)) or isinstance(p, ast.FunctionDef):
+                        continue  # annotation
+                    elif isinstance(p, ast.Subscript) or isinstance(p, ast.Attribute):
+                        ann_ok = False
+                    else:
+                        ann_ok = False
+        if not ann_ok:
+            continue
+
+        def param_for(callee, call, arg):
+            ps = list(callee.params)
+            off = 0
+            if callee.cls is not None and isinstance(call.func, ast.Attribute) and ps and ps[0] in ("self", "cls", "mcs"):
+                off = 1
+            if arg in call.args:
+                i = call.args.index(arg) + off
+                return ps[i] if i < len(ps) else None
+            for k in call.keywords:
+                if k.value is arg:
+                    return k.arg if k.arg in ps else None
+            return None
+
+        frontier = []
+        for f, c, a in work:
+            t = model.resolve_call(f, c)
+            if t.kind != "func" or ctor_fields(a) is None:
+                plan_ok = False
+                break
+            p_ = param_for(t.target, c, a)
+            if p_ is None or (t.target.qualname in recv and recv[t.target.qualname] != p_):
+                plan_ok = False
+                break
+            if t.target.qualname not in recv:
+                recv[t.target.qualname] = p_
+                frontier.append(t.target)
+        # receivers: the parameter is only read field by field or handed on whole
+        passes = []  # (function, call, arg name node)
+        while plan_ok and frontier:
+            g = frontier.pop()
+            p_ = recv[g.qualname]
+            parents = {}
+            for p in ast.walk(g.node):
+                for c in ast.iter_child_nodes(p):
+                    parents[id(c)] = p
+            for x in ast.walk(g.node):
+                if isinstance(x, ast.Name) and x.id == p_:
+                    if isinstance(x.ctx, (ast.Store, ast.Del)):
+                        plan_ok = False
+                        break
+                    par = parents.get(id(x))
+                    if isinstance(par, ast.Attribute) and par.value is x and isinstance(par.ctx, ast.Load) and par.attr in fields:
+                        continue
+                    if isinstance(par, ast.Call) and (x in par.args or any(k.value is x for k in par.keywords)):
+                        # handed on whole -- from the scope that owns the parameter (not from a nested function)
+                        t = model.resolve_call(g, par)
+                        if t.kind == "func":
+                            q_ = param_for(t.target, par, x)
+                            if q_ is not None and recv.get(t.target.qualname, q_) == q_:
+                                if t.target.qualname not in recv:
+                                    recv[t.target.qualname] = q_
+                                    frontier.append(t.target)
+                                passes.append((g, par, x))
+                                continue
+                    plan_ok = False
+                    break
+            # a nested function that reads the parameter as a free variable keeps working after the rename (same names)
+        # every call of a receiver passes a record in that position
+        if plan_ok:
+            for q_, p_ in recv.items():
+                g = model.functions[q_]
+                for f in model.functions.values():
+                    if f.module.short.startswith("_typeguard"):
+                        continue
+                    for c in model.calls_in(f):
+                        t = model.resolve_call(f, c)
+                        if t.kind == "func" and t.target is g:
+                            ps = list(g.params)
+                            off = 1 if (g.cls is not None and isinstance(c.func, ast.Attribute) and ps and ps[0] in ("self", "cls", "mcs")) else 0
+                            idx = ps.index(p_) - off
+                            a = c.args[idx] if 0 <= idx < len(c.args) else next((k.value for k in c.keywords if k.arg == p_), None)
+                            if a is None or any(isinstance(z, ast.Starred) for z in c.args[:idx + 1]):
+                                plan_ok = False
+                            elif not (is_ctor(f, a) or (isinstance(a, ast.Name) and recv.get(f.qualname) == a.id)):
+                                plan_ok = False
+        if not plan_ok:
+            continue
+        # rewrite receivers
+        newnames = {}
+        for q_, p_ in recv.items():
+            g = model.functions[q_]
+            taken = (set(g.params) | g.local_names() | {y.id for y in ast.walk(g.node) if isinstance(y, ast.Name)}) - {p_}
+            names = [f_.lstrip("_") if f_.lstrip("_") not in taken else f"{p_}__{f_.lstrip('_')}" for f_ in fields]
+            newnames[q_] = names
+        for q_, p_ in recv.items():
+            g = model.functions[q_]
+            names = newnames[q_]
+
+            class Tr(ast.NodeTransformer):
+                def visit_Attribute(self, n):
+                    if isinstance(n.value, ast.Name) and n.value.id == p_ and n.attr in fields:
+                        return ast.copy_location(ast.Name(id=names[fields.index(n.attr)], ctx=ast.Load()), n)
+                    return self.generic_visit(n)
+
+            for st in g.node.body:
+                Tr().visit(st)
+            a = g.node.args
+            for lst in (a.posonlyargs, a.args, a.kwonlyargs):
+                for i, ar in enumerate(list(lst)):
+                    if ar.arg == p_:
+                        lst[i:i + 1] = [ast.arg(arg=nm, annotation=None) for nm in names]
+        # rewrite call sites
+        for f in list(model.functions.values()):
+            if f.module.short.startswith("_typeguard"):
+                continue
+            for c in model.calls_in(f):
+                t = model.resolve_call(f, c)
+                if t.kind != "func" or t.target.qualname not in recv:
+                    continue
+                g = t.target
+                p_ = recv[g.qualname]
+                names = newnames[g.qualname]
+                for i, a in enumerate(list(c.args)):
+                    vals = None
+                    if is_ctor(f, a):
+                        vals = ctor_fields(a)
+                    elif isinstance(a, ast.Name) and recv.get(f.qualname) == a.id:
+                        vals = [ast.Name(id=nm, ctx=ast.Load()) for nm in newnames[f.qualname]]
+                    if vals is not None and param_for_index(g, c, i) == p_:
+                        c.args[i:i + 1] = vals
+                        break
+                else:
+                    for k in list(c.keywords):
+                        if k.arg == p_:
+                            vals = ctor_fields(k.value) if is_ctor(f, k.value) else [ast.Name(id=nm, ctx=ast.Load()) for nm in newnames.get(f.qualname, [])]
+                            j = c.keywords.index(k)
+                            c.keywords[j:j + 1] = [ast.keyword(arg=nm, value=v) for nm, v in zip(names, vals)]
+        for mod in model.modules.values():
+            ast.fix_missing_locations(mod.tree)
+        done.append(".".join(key))
+    return done
+
+
+def param_for_index(callee, call, i):
+    ps = list(callee.params)
+    off = 1 if (callee.cls is not None and isinstance(call.func, ast.Attribute) and ps and ps[0] in ("self", "cls", "mcs")) else 0
+    return ps[i + off] if i + off < len(ps) else None
